@@ -2,7 +2,7 @@
    ThreadPoolProofsA.v), InvB (marker and counters, ThreadPoolProofsB.v) and InvC (progress,
    ThreadPoolProofsC.v), which hold in every reachable state. *)
 From UV Require Import Lib.Base Model.ThreadPool Proofs.ThreadPoolDefs
-  Proofs.ThreadPoolProofsA Proofs.ThreadPoolProofsB Proofs.ThreadPoolProofsC.
+  Proofs.ThreadPoolProofsA Proofs.ThreadPoolProofsB Proofs.ThreadPoolProofsC Proofs.ThreadPoolProofsN.
 
 Lemma reachable_run c progs sched : reachable c progs (run c (init c progs) sched).
 Proof. exists sched. reflexivity. Qed.
@@ -43,16 +43,26 @@ Lemma done_exactly_once_terminal c progs sched r :
   let s := run c (init c progs) sched in
   1 <= c_n c ->
   (forall t, step c s t 0 = None) ->
-  r_st (reqs s r) <> RFree ->
+  r < nreq s ->
   ndone r (trace s) = 1 /\ exists st, r_st (reqs s r) = Done st.
 Proof.
-  intros s Hn Hterm Hfree.
+  intros s Hn Hterm Hlt.
   pose proof (reachable_run c progs sched) as Hr. fold s in Hr.
   pose proof (invA_reachable c progs s Hr) as HA.
+  pose proof (allsub_reachable c progs s Hr r Hlt) as Hfree.
   destruct (unf_st (r_st (reqs s r))) eqn:Hu.
   - destruct (no_stuck c progs s r Hn Hr Hu) as [t Ht]. exfalso. apply Ht. apply Hterm.
   - rewrite (a_ndone c s HA). destruct (r_st (reqs s r)) eqn:E; try discriminate; [contradiction|].
     split; [reflexivity | eauto].
+Qed.
+
+(* the ids below nreq are exactly the submitted requests *)
+Lemma submitted_below_nreq c progs sched r l k :
+  let s := run c (init c progs) sched in
+  In (ESubmit r l k) (trace s) -> r < nreq s.
+Proof.
+  intros s H. pose proof (invA_reachable c progs s (reachable_run c progs sched)) as HA.
+  apply (a_submit_ev c s HA r l k H).
 Qed.
 
 (* ---- uv_cancel ---- *)
@@ -223,6 +233,11 @@ Definition cfg1 : config := mkCfg 1 1 (fun _ => []).
 Definition prog_cancel_twice : list (list op) := [[OSubmit KCpu; OCancel 0; OCancel 0]].
 Definition sched5 : list (nat * nat) := [(0, 0); (0, 0); (0, 0); (0, 0); (0, 0)].
 
+Lemma match_step_exists c s l (P : state -> Prop) :
+  match step c s l 0 with Some s' => P s' | None => False end ->
+  exists s', step c s l 0 = Some s' /\ P s'.
+Proof. destruct (step c s l 0) as [s'|]; [eauto | contradiction]. Qed.
+
 Lemma cancel_iff_queued_refuted :
   exists c progs sched l r,
     let s := run c (init c progs) sched in
@@ -231,7 +246,7 @@ Lemma cancel_iff_queued_refuted :
 Proof.
   exists cfg1, prog_cancel_twice, sched5, 0, 0. cbv zeta.
   split; [vm_compute; reflexivity|]. split; [vm_compute; discriminate|].
-  eexists. split; [reflexivity|]. vm_compute. reflexivity.
+  apply match_step_exists. vm_compute. reflexivity.
 Qed.
 
 (* ---- the hypotheses are satisfiable: a run with two workers, a CPU, a slow and a fast
@@ -253,4 +268,42 @@ Proof.
   - intros t Ht. destruct t as [|[|[|t]]]; try lia; vm_compute; reflexivity.
   - split; [vm_compute; reflexivity|]. split; [vm_compute; reflexivity|].
     split; vm_compute; tauto.
+Qed.
+
+(* ---- the loop stays alive until the callback: active_reqs counts the unreported requests ---- *)
+Lemma alive_until_done c progs sched l r :
+  let s := run c (init c progs) sched in
+  1 <= c_n c ->
+  l_active (lp s l) = countr (unf l) (nreq s) (reqs s) /\
+  (r_loop (reqs s r) = l -> unf_st (r_st (reqs s r)) = true -> 1 <= l_active (lp s l)).
+Proof.
+  intros s Hn. pose proof (reachable_run c progs sched) as Hr. fold s in Hr.
+  pose proof (invC_reachable c progs s Hn Hr) as HC.
+  pose proof (invA_reachable c progs s Hr) as HA.
+  destruct HC as [_ Hact _ _ _]. split; [apply Hact|].
+  intros Hl Hu. rewrite (Hact l). apply (countr_pos _ _ _ r).
+  - destruct (Nat.lt_ge_cases r (nreq s)) as [K | K]; [exact K|].
+    rewrite (a_free c s HA r K) in Hu. discriminate.
+  - unfold unf. rewrite Hl, Nat.eqb_refl, Hu. reflexivity.
+Qed.
+
+(* ---- the recursion bound of the model's worker loop is never the reason it stops ---- *)
+Lemma fuel_sufficient c t w aux s k :
+  InvB c s -> wloop (wloop_fuel + k) c t w aux s = wloop wloop_fuel c t w aux s.
+Proof.
+  intros HB. unfold wloop_fuel.
+  transitivity (wloop 2 c t w aux s).
+  - apply (wloop_fuel_enough c t w aux s (S k) HB).
+  - symmetry. apply (wloop_fuel_enough c t w aux s 1 HB).
+Qed.
+
+Lemma worker_loop_entered_with_InvB c progs s t w aux s' :
+  reachable c progs s -> w < c_n c ->
+  (exists b, wk s w = WRelock b) \/ (exists sg, wk s w = WWait sg) ->
+  wstep c t w aux s = Some s' ->
+  exists s2, s' = wloop wloop_fuel c t w aux s2 /\ InvB c s2.
+Proof.
+  intros Hr Hw Hpc Hs.
+  destruct (wstep_prefix c s t w aux s' (invB_reachable c progs s Hr) Hw Hpc Hs) as (s2 & E & H2 & _).
+  exists s2. split; assumption.
 Qed.
